@@ -13,6 +13,9 @@ usage: rust2coq.py --repo <lasso checkout> --out <dir> [--only keys|arena|lockfr
   clone     src/rodeo.rs (clone paths)                    -> <out>/CloneGen.v          (lower_clone.py)
   iters     src/util.rs (Iter / Strings) + their callers  -> <out>/ItersGen.v          (lower_iters.py)
 
+  serde     the Serialize / Deserialize impls of rodeo.rs, reader.rs, resolver.rs, threaded_rodeo.rs
+                                                          -> <out>/SerdeGen.v          (lower_serde.py)
+
 Every function body is first prepared by astx.py (helpers of the same file inlined, idioms normalised); see there.
 Whenever the source leaves the subset the translator understands it prints
     LOST: <file>:<line>: <what>
@@ -71,7 +74,12 @@ def do_iters(repo, out):
     lower_iters.run(repo, out)
 
 
-PARTS = {"iters": (do_iters, "src/util.rs"), "clone": (do_clone, "src/rodeo.rs"), "views": (do_views, "src/reader.rs"), "threaded": (do_threaded, "src/threaded_rodeo.rs"), "keys": (do_keys, "src/keys.rs"), "arena": (do_arena, "src/arenas"), "lockfree": (do_lockfree, "src/arenas"),
+def do_serde(repo, out):
+    import lower_serde
+    lower_serde.run(repo, out)
+
+
+PARTS = {"serde": (do_serde, "src/rodeo.rs"), "iters": (do_iters, "src/util.rs"), "clone": (do_clone, "src/rodeo.rs"), "views": (do_views, "src/reader.rs"), "threaded": (do_threaded, "src/threaded_rodeo.rs"), "keys": (do_keys, "src/keys.rs"), "arena": (do_arena, "src/arenas"), "lockfree": (do_lockfree, "src/arenas"),
          "rodeo": (do_rodeo, "src/rodeo.rs")}
 
 
